@@ -37,6 +37,12 @@ CORPUS = [
     (0j, 3 + 2j, 30.0, True, False, 4 + 1j, 'corpus-generic'),
     (0j, -3 - 2j, 390.0, False, False, 4 + 1j, 'corpus-negative-radii'),
     (10 + 0j, 1 + 1j, 180.0, False, True, 0j, 'corpus-rot180-axis'),
+    # tiny but non-zero radii / very flat ellipse / tiny units: admissible, must be enlarged
+    (0j, 1e-9 + 1e-9j, 0.0, False, True, 10 + 5j, 'corpus-tiny-radius'),
+    (0j, 50 + 1e-9j, 30.0, False, True, 10 + 5j, 'corpus-flat'),
+    (0j, 1e-20 + 3j, 30.0, True, True, 1e-9 + 2e-9j, 'corpus-tiny-radius'),
+    (0j, 3e-9 + 2e-9j, 30.0, True, False, 4e-9 + 1e-9j, 'corpus-tiny-units'),
+    (0j, 3e12 + 2e12j, 30.0, True, False, 4e12 + 1e12j, 'corpus-huge-units'),
     # start within 1e-8 rad of an axis extreme (acos conditioning, KF-C04-4)
     (100 + 1e-6j, 100 + 100j, 0.0, False, True, 100j, 'corpus-axis-extreme'),
     # radii too small by a hair (decimally rounded data): radius_check = 1 + 2.2e-6, 1 + 2.2e-7, 1 + 5e-9
@@ -53,7 +59,19 @@ def rnd_pt(rng, sc=1e3):
 def gen_arc(rng, i):
     """one arc from the families of the quantifier"""
     fam = rng.choice(['ample', 'ample', 'too_small', 'too_small', 'exact_fit', 'eccentric',
-                      'near_snap', 'axis', 'int', 'tiny_chord', 'on_ellipse', 'hair_small', 'hair_small'])
+                      'near_snap', 'axis', 'int', 'tiny_chord', 'on_ellipse', 'hair_small', 'hair_small',
+                      'tiny_radius', 'tiny_radius', 'flat', 'tiny_units', 'huge_units'])
+    if fam in ('tiny_units', 'huge_units'):
+        # a whole drawing in tiny (1e-12..1e-6) or huge (1e6..1e15) units: an ordinary arc, scaled
+        u = 10 ** (rng.uniform(-12, -6) if fam == 'tiny_units' else rng.uniform(6, 15))
+        while True:
+            s0, r0, rot0, la0, sw0, e0, f0 = gen_arc(rng, i)
+            if f0.split('-')[0] in ('ample', 'too_small', 'eccentric', 'int', 'exact_fit', 'hair_small', 'on_ellipse'):
+                break
+        s1, r1, e1 = s0 * u, r0 * u, e0 * u
+        if s1 == e1 or r1.real == 0 or r1.imag == 0:
+            return gen_arc(rng, i)
+        return (s1, r1, rot0, la0, sw0, e1, fam + '/' + f0)
     rot = rng.choice(ROTS + [rng.uniform(-720, 720), rng.uniform(0, 360), rng.uniform(-5, 5)])
     large, sweep = FLAGS[i % 4]
     neg = rng.random() < 0.25
@@ -63,7 +81,37 @@ def gen_arc(rng, i):
         z = (s - e) / 2 * complex(math.cos(phi), -math.sin(phi))
         return z.real, z.imag
 
-    if fam == 'hair_small':
+    if fam == 'tiny_radius':
+        # one or both radius components in [1e-300, 1e-7] (log-uniform); chord ordinary or tiny.
+        # Admissible (non-zero): the radii must be enlarged by the minimal factor
+        s = rnd_pt(rng)
+        e = s + rnd_pt(rng, 10 ** rng.uniform(-9, -3)) if rng.random() < 0.4 else rnd_pt(rng)
+        if s == e:
+            e = s + 1
+        tiny = lambda: 10 ** rng.uniform(-300, -7)
+        ordinary = lambda: abs(s - e) * 10 ** rng.uniform(-2, 1.5)
+        which = rng.choice(['both', 'x', 'y'])
+        r = complex(tiny() if which in ('both', 'x') else ordinary(),
+                    tiny() if which in ('both', 'y') else ordinary())
+    elif fam == 'flat':
+        # very flat ellipses: one radius ordinary, the other 1e-12..1e-7 of it; the chord either
+        # generic (radii get enlarged) or along the long axis (the flat ellipse fits as given)
+        R = 10 ** rng.uniform(0, 3)
+        flat = R * 10 ** rng.uniform(-12, -7)
+        longx = rng.random() < 0.5
+        r = complex(R, flat) if longx else complex(flat, R)
+        if rng.random() < 0.5:
+            phi = math.radians(rot)
+            half = R * rng.uniform(0.05, 1.2)
+            d = (half if longx else half * 1j) * complex(math.cos(phi), math.sin(phi))
+            mid = rnd_pt(rng, 100)
+            s, e = mid + d, mid - d
+        else:
+            s = rnd_pt(rng, 100)
+            e = s + rnd_pt(rng, R)
+        if s == e:
+            e = s + 1
+    elif fam == 'hair_small':
         # radii too small by a hair: radius_check in [1+1e-9, 1+1e-4] log-uniform, obtained by
         # shrinking an exactly fitting pair of radii by 1/sqrt(radius_check); the fitting pair is
         # either a Pythagorean construction or the computed fit of a random chord
@@ -179,6 +227,12 @@ Definition two_m23 : bf := bf_of 1 (-23).
 Definition cond (s : bf) : bf :=
   let a := babs s in
   if bf_leb a (bf_of 1 (-70)) then two_m23 else bmin (div N two_m46 a) two_m23.
+(* the same when x itself carries the absolute error ex: min((2^-46+ex)/|s|, sqrt(2(2^-46+ex))) *)
+Definition cond2 (s ex : bf) : bf :=
+  let a := babs s in
+  let e := add N two_m46 ex in
+  let cap := bf_sqrt (add N e e) in
+  if bf_leb a (bf_of 1 (-70)) then cap else bmin (div N e a) cap.
 Definition ang_close (tol a b : bf) : bool :=
   let d := babs (sub N a b) in
   bf_leb d tol || bf_leb (babs (sub N d (bz 360))) tol.
@@ -232,13 +286,30 @@ Definition ok (c : casety) : nat :=
      absolute rounding error ~2^-49, so the radical ~2^-50/radical (capped at its square root) *)
   (* repaired radical rule: the decision `scaled or radicand <= 0` is within rounding when
      |radicand| <= 2^-46; the implementation's radical is then anything in [0, 2^-22] *)
-  let kc := if FX && bf_leb (babs radicand) (bf_of 1 (-46)) then bf_of 1 (-22)
-            else if snapped then zero N else bmin (div N (bf_of 1 (-48)) radical) (bf_of 1 (-24)) in
   let rS := a_radius P in let z := arc_zp1_of N T start rot end_ in
+  (* condition numbers of degenerate inputs (radii tiny against the chord, very flat ellipses):
+     the half chord (x1', y1') in the rotated frame carries the absolute rounding error
+     eta = 2^-49 |start - end|; hence u1, u2 carry eu, radius_check carries drc (relative to the
+     given radii) / drcS (stored radii), the radicand drad *)
+  let eta := mul N (bf_of 1 (-49)) (cabs1 (csub N start end_)) in
+  let eu := add N (div N eta (fst rS)) (div N eta (snd rS)) in
+  let r0 := abs_radius N radius in
+  let rc0 := arc_rc_of N T start radius rot end_ in
+  (* first order 2*eta*|x|/rx^2 plus second order eta^2/rx^2 (matters where x1' or y1' is ~0) *)
+  let drc := mul N eta (add N (div N (add N (babs (fst z)) (add N (babs (fst z)) eta)) (mul N (fst r0) (fst r0)))
+                              (div N (add N (babs (snd z)) (add N (babs (snd z)) eta)) (mul N (snd r0) (snd r0)))) in
+  let drcS := mul N eta (add N (div N (add N (babs (fst z)) (add N (babs (fst z)) eta)) (mul N (fst rS) (fst rS)))
+                               (div N (add N (babs (snd z)) (add N (babs (snd z)) eta)) (mul N (snd rS) (snd rS)))) in
+  let rcS := arc_rc N rS z in
+  let erad := add N (bf_of 1 (-48)) (div N drcS (mul N rcS rcS)) in
+  let kc := if FX && bf_leb (babs radicand) (bf_of 1 (-46)) then bf_of 1 (-22)
+            else if snapped then zero N else bmin (div N erad radical) (bf_sqrt erad) in
   let wabs := add N (babs (div N (mul N (fst rS) (snd z)) (snd rS)))
                     (babs (div N (mul N (snd rS) (fst z)) (fst rS))) in
-  let cth := add N (cond (snd u1)) kc in
-  let cde := if snapped then add N kc kc else add N (cond (arc_det N u1 u2)) (add N kc kc) in
+  let euk := add N eu kc in
+  let cth := add N (cond2 (snd u1) euk) euk in
+  let cde := if snapped then add N euk euk
+             else add N (cond2 (arc_det N u1 u2) (add N euk euk)) (add N euk euk) in
   let tol_th := add N (mul N e9 (bz 360)) (mul N (bz 58) cth) in
   let tol_de := add N (mul N e9 (bz 360)) (mul N (bz 58) cde) in
   let k1 := add N (bz 1) (babs (div N (mul N delta_m (pi_ T)) (bz 180))) in
@@ -248,8 +319,10 @@ Definition ok (c : casety) : nat :=
             (add N e9 (add N cth (mul N (add N (bz 1) (babs t)) cde))) in
   first_fail
    [ (* stored radii: |r| or sqrt(radius_check)*|r| — a few binary64 roundings, 1e-13 relative *)
-     (bcclose (mul N (mul N e9 (bf_of 1 (-13))) rsum) o_radius (a_radius P), 1);
-     (bcclose (add N tol (mul N wabs kc)) o_center (a_center P), 2);
+     (bcclose (mul N rsum (add N (mul N e9 (bf_of 1 (-13))) (div N drc (bmax (bz 1) rc0)))) o_radius (a_radius P), 1);
+     (bcclose (add N (add N tol (mul N wabs kc))
+                     (mul N (mul N radical eta) (add N (div N (fst rS) (snd rS)) (div N (snd rS) (fst rS)))))
+              o_center (a_center P), 2);
      (ang_close tol_th o_theta (a_theta P), 3);
      (bclose tol_de o_delta delta_m, 4);
      (forallb (fun s => let '(t, o_pt, _) := s in bcclose (tol_pt t) o_pt (arc_point N T Pm t)) samples, 5);
@@ -265,7 +338,10 @@ Definition ok (c : casety) : nat :=
         recomputed at 120 bits) *)
      (let Pobs := mkArcP start o_radius rot large sweep end_ o_center o_theta o_delta (a_phi P) (a_rot P) in
       let rmin := bmin (babs (fst o_radius)) (babs (snd o_radius)) in
-      let tol_e := mul N e9 (bmax (bz 1) (div N S rmin)) in
+      (* "within 1e-9*scale of the ellipse": with q = 1e-9*scale/min(radii) the residual of
+         (x/rx)^2 + (y/ry)^2 - 1 may be 2q + q^2 *)
+      let q := mul N e9 (bmax (bz 1) (div N S rmin)) in
+      let tol_e := mul N q (add N (bz 2) q) in
       forallb (fun s => let '(_, o_pt, _) := s in
                  bclose tol_e (cnorm2 N (arc_u1transform N Pobs o_pt)) (bz 1)) samples, 9)
    ].
@@ -384,6 +460,14 @@ def fd_weights(x0, xs, m):
     return [c[i][m] for i in range(n)]
 
 
+def ff(q):
+    """float of a Fraction/float, saturating instead of raising OverflowError"""
+    try:
+        return float(q)
+    except OverflowError:
+        return math.inf if q > 0 else -math.inf
+
+
 def fsqrt(q):
     """sqrt of a positive Fraction to ~1e-30 relative (Newton on integers)"""
     sc = 10 ** 60
@@ -402,19 +486,24 @@ def scaling_clause(arc_in, o, ex=None):
         ex = exact_frame(arc_in, o)
     rc = ex['rc']
     rx, ry = ex['rx'], ex['ry']
-    if rc > 1 + Fr(1, 10 ** 13):
+    # conditioning: the half chord (x1', y1') is computed with absolute rounding error
+    # eta = 2^-49*|start - end|, so radius_check with 2*eta*(|x1'|/rx^2 + |y1'|/ry^2)
+    eta = Fr(abs(arc_in[0].real - arc_in[5].real) + abs(arc_in[0].imag - arc_in[5].imag)) / 2 ** 49
+    drc = eta * ((2 * abs(ex['x1']) + eta) / ex['rx0'] ** 2 + (2 * abs(ex['y1']) + eta) / ex['ry0'] ** 2)
+    tolr = Fr(1, 10 ** 13) + drc / max(rc, 1)
+    if rc > 1 + tolr:
         lam = fsqrt(rc)
         wx, wy = lam * ex['rx0'], lam * ex['ry0']
-        if not (abs(rx - wx) <= wx / 10 ** 13 and abs(ry - wy) <= wy / 10 ** 13):
+        if not (abs(rx - wx) <= wx * tolr and abs(ry - wy) <= wy * tolr):
             bad.append(('scaling', 'no ellipse fits (radius_check = 1 + %.3g) but the stored radii %r are not the '
                         'given radii enlarged by the minimal factor sqrt(radius_check) = 1 + %.3g (expected %r)'
-                        % (float(rc - 1), (float(rx), float(ry)), float(lam - 1), (float(wx), float(wy))),
-                        {'radius_check_minus_1': float(rc - 1), 'stored': [float(rx), float(ry)],
-                         'want': [float(wx), float(wy)]}))
-    elif rc < 1 - Fr(1, 10 ** 13):
+                        % (ff(rc - 1), (ff(rx), ff(ry)), ff(lam - 1), (ff(wx), ff(wy))),
+                        {'radius_check_minus_1': ff(rc - 1), 'stored': [ff(rx), ff(ry)],
+                         'want': [ff(wx), ff(wy)]}))
+    elif rc < 1 - tolr:
         if not (rx == ex['rx0'] and ry == ex['ry0']):
-            bad.append(('scaling', 'radii changed although an ellipse fits (radius_check = 1 - %.3g)' % float(1 - rc),
-                        {'radius_check_minus_1': float(rc - 1), 'stored': [float(rx), float(ry)]}))
+            bad.append(('scaling', 'radii changed although an ellipse fits (radius_check = 1 - %.3g)' % ff(1 - rc),
+                        {'radius_check_minus_1': ff(rc - 1), 'stored': [ff(rx), ff(ry)]}))
     return bad
 
 
@@ -423,15 +512,15 @@ def holds_impl(arc_in, a, o, ts, fx=False):
     bad = []
     s, r, rot, la, sw, e, _ = arc_in
     ex = exact_frame(arc_in, o)
-    rx, ry = float(ex['rx']), float(ex['ry'])
+    rx, ry = ff(ex['rx']), ff(ex['ry'])
     scale = abs(s) + abs(e) + rx + ry + abs(o['center'])
-    radicand = float(ex['radicand'])
+    radicand = ff(ex['radicand'])
     # --- end points
     p0, p1 = complex(a.point(0)), complex(a.point(1))
     err = max(abs(p0 - s), abs(p1 - e))
     if not err <= 1e-9 * scale:
         # classify: snapped region / acos conditioning at an axis extreme / other
-        u1x = float((ex['x1']) / ex['rx'])
+        u1x = ff((ex['x1']) / ex['rx'])
         if fx:
             snapped_region = False
         else:
@@ -462,13 +551,14 @@ def holds_impl(arc_in, a, o, ts, fx=False):
         px, py = cfr(p)
         zx = (ex['c'] * (px - cx) + ex['s'] * (py - cy)) / ex['n2']
         zy = (ex['c'] * (py - cy) - ex['s'] * (px - cx)) / ex['n2']
-        res = abs(float((zx / ex['rx']) ** 2 + (zy / ex['ry']) ** 2 - 1))
+        res = abs(ff((zx / ex['rx']) ** 2 + (zy / ex['ry']) ** 2 - 1))
         worst = max(worst, res)
-    if not worst <= 1e-9 * max(1.0, scale / min(rx, ry)):
+    q = 1e-9 * max(1.0, scale / min(rx, ry))        # within 1e-9*scale of the ellipse
+    if not worst <= q * (2 + q):
         bad.append(('off-ellipse', 'a point(t) is off the stored ellipse: residual %.3g' % worst, {'residual': worst}))
     # --- minimal scaling
     bad += scaling_clause(arc_in, o, ex)
-    rc = float(ex['rc'])
+    rc = ff(ex['rc'])
     # --- flags
     d = o['delta']
     if not (d != 0 and (d > 0) == bool(sw) and abs(d) <= 360):
@@ -507,6 +597,18 @@ def holds_impl(arc_in, a, o, ts, fx=False):
                 bad.append(('approx-ends-' + name, 'as_%s_curves(%d) is not a chain from start to end' % (name, k),
                             {'pieces': [[str(p) for p in c] for c in pieces]}))
     return bad
+
+
+def sq_underflow(arc_in):
+    """a radius component so small that the code's intermediate squares leave the binary64
+    range: rx*rx / ry*ry subnormal or 0 (|r| < 1.5e-154), or (x1'/rx)^2 resp. (y1'/ry)^2
+    above 1.8e308 (|chord|/|r| > ~1e154)"""
+    r = arc_in[1]
+    m = min(abs(r.real), abs(r.imag))
+    ch = abs(arc_in[0] - arc_in[5])
+    big = max(abs(r.real), abs(r.imag), 1.0)
+    # ... or the enlarged radii sqrt(radius_check)*|r| ~ (|chord|/m)*|r| exceed ~1e154, whose square overflows
+    return m < 1.5e-154 or ch / m * big > 1e152
 
 
 def arc_json(arc_in):
@@ -563,6 +665,7 @@ def run(rep, tier, seed, replay=None):
         nontrivial = set()
         found = {}          # key -> [count, first (what, replay)]
         n_nonfinite = 0
+        n_raised = 0
         for arc_in in todo:
             fam = arc_in[6]
             fams[fam] = fams.get(fam, 0) + 1
@@ -570,9 +673,15 @@ def run(rep, tier, seed, replay=None):
             try:
                 a, o = observe(arc_in, ts)
             except Exception as ex:
-                rep.violation('implementation raised %s on an admissible Arc' % type(ex).__name__,
-                              {'kind': 'exception', 'arc': arc_json(arc_in), 'error': repr(ex)},
-                              key='impl-exception')
+                # the inputs are admissible by construction (start != end, both radii non-zero)
+                key = 'arc-constructor-rejects-admissible'
+                if key not in found:
+                    found[key] = [0, 'Arc(...) raised %s on an admissible input (start != end, radii %r non-zero)'
+                                  % (type(ex).__name__, arc_in[1]),
+                                  {'kind': 'exception', 'arc': arc_json(arc_in), 'error': repr(ex),
+                                   'how': './check C04 --replay <this file>'}]
+                found[key][0] += 1
+                n_raised += 1
                 continue
             nontrivial.add((arc_in[0], arc_in[1], arc_in[2], arc_in[5]))
             nf = nonfinite(o)
@@ -581,15 +690,22 @@ def run(rep, tier, seed, replay=None):
                 n_nonfinite += 1
                 exq = exact_frame(arc_in, dict(o, radius=complex(abs(arc_in[1].real), abs(arc_in[1].imag))))
                 key = 'non-finite-geometry'
+                if sq_underflow(arc_in):
+                    key = 'tiny-radius-float-range'
                 if key not in found:
-                    found[key] = [0, 'non-finite %s on an admissible arc (radius_check = 1 + %.3g, stored radius %r, '
-                                  'center %r)' % ('/'.join(nf), float(exq['rc'] - 1), o['radius'], o['center']),
+                    found[key] = [0, 'non-finite %s on an admissible arc (%sradius_check = 1 + %.3g, stored radius %r, '
+                                  'center %r)' % ('/'.join(nf),
+                                                  'a radius component so small (< 1.5e-154, or < 1e-153*|chord|) that rx*rx or (x1p/rx)**2 leaves the binary64 range; '
+                                                  if sq_underflow(arc_in) else '',
+                                                  ff(exq['rc'] - 1), o['radius'], o['center']),
                                   {'kind': 'property', 'arc': arc_json(arc_in),
-                                   'detail': {'nonfinite': nf, 'radius_check_minus_1': float(exq['rc'] - 1),
+                                   'detail': {'nonfinite': nf, 'radius_check_minus_1': ff(exq['rc'] - 1),
                                               'radius': str(o['radius']), 'center': str(o['center'])},
                                    'how': './check C04 --replay <this file>'}]
                 found[key][0] += 1
                 for key, what, detail in scaling_clause(arc_in, o):
+                    if sq_underflow(arc_in):
+                        key = 'tiny-radius-float-range'
                     if key not in found:
                         found[key] = [0, what, {'kind': 'property', 'arc': arc_json(arc_in), 'detail': detail,
                                                 'how': './check C04 --replay <this file>'}]
@@ -598,6 +714,9 @@ def run(rep, tier, seed, replay=None):
             cases.append(case_term(arc_in, ts, o))
             meta.append((arc_in, ts, o))
             for key, what, detail in holds_impl(arc_in, a, o, ts, fx):
+                if sq_underflow(arc_in) and not key.startswith('deriv'):
+                    key = 'tiny-radius-float-range'
+                    what = 'a radius component so small that rx*rx or (x1p/rx)**2 leaves the binary64 range: ' + what
                 if key not in found:
                     found[key] = [0, what, {'kind': 'property', 'arc': arc_json(arc_in), 'detail': detail,
                                             'how': './check C04 --replay <this file>'}]
@@ -627,12 +746,13 @@ def run(rep, tier, seed, replay=None):
                            'observed': {'radius': str(o['radius']), 'center': str(o['center']),
                                         'theta': o['theta'], 'delta': o['delta']},
                            'how': './check C04 --replay <this file>'},
-                          key='corr-%d' % code)
+                          key='tiny-radius-float-range' if sq_underflow(arc_in) else 'corr-%d' % code)
         ncmp = 4 + 9 + 45 + 8 + 6 + 9
         rep.cov['evaluations'] = (len(cases) - len(undecided)) * ncmp
         rep.cov['traces_validated_against_impl'] = len(cases) - len(undecided)
         rep.cov['skipped_undecided'] = len(undecided)
         rep.cov['nonfinite_reported'] = n_nonfinite
+        rep.cov['constructor_exceptions_reported'] = n_raised
         rep.cov['distinct_nontrivial'] = len(nontrivial)
         rep.cov['rule'] = ('arcs from the families %s (start/end in +-1e3; radii far too small, exactly fitting from '
                            'Pythagorean points, ample, negative-signed, eccentricity to 1e3, radicand around the 1e-8 '
